@@ -6,6 +6,7 @@ import (
 
 	"github.com/artela-network/artela-evm/vm"
 	"github.com/ethereum/go-ethereum/common"
+	"github.com/ethereum/go-ethereum/crypto"
 )
 
 // NodeDump is the projection of one call-tree node obtained only through the
@@ -16,6 +17,10 @@ type NodeDump struct {
 	From     string   `json:"from"`
 	To       string   `json:"to"` // "" for creates
 	Data     string   `json:"data"`
+	DataH    string   `json:"-"`
+	DataLen  int      `json:"-"`
+	RetH     string   `json:"-"`
+	RetLen   int      `json:"-"`
 	Value    string   `json:"value"`
 	Gas      uint64   `json:"gas"`
 	Parent   int64    `json:"parent"`   // via node.ParentIndex()
@@ -53,6 +58,13 @@ func DumpTree(t *vm.Tracer) TreeDump {
 		nd := NodeDump{Index: n.Index, Found: true, From: hex.EncodeToString(n.From[:]), Data: hx(n.Data), Ret: hx(n.Ret), Left: n.RemainingGas, Err: errStr(n.Err), Parent: n.ParentIndex(), ParentQ: -1}
 		if n.To != nil {
 			nd.To = hex.EncodeToString(n.To[:])
+		}
+		nd.DataLen, nd.RetLen = len(n.Data), len(n.Ret)
+		if len(n.Data) > 0 {
+			nd.DataH = hex.EncodeToString(crypto.Keccak256(n.Data)[:8])
+		}
+		if len(n.Ret) > 0 {
+			nd.RetH = hex.EncodeToString(crypto.Keccak256(n.Ret)[:8])
 		}
 		if n.Value != nil {
 			nd.Value = n.Value.ToBig().String()
